@@ -168,6 +168,41 @@ func C10(c *fw.Ctx) {
 				emit(j2)
 			}
 		}
+		// a macro that holds a method with its Path directive, pasted under several URLs (and pasted twice under one method's siblings)
+		for k := 2; k <= 4; k++ {
+			for variant := 0; variant < 3; variant++ {
+				var a, b strings.Builder
+				a.WriteString("JSIGHT 0.3\n")
+				b.WriteString("JSIGHT 0.3\n")
+				run := "  GET // shared\n    Path\n    {\n      \"id\": 1 // {min: 1}\n    }\n    200 any\n"
+				macroBody := run
+				def := "MACRO @withPath\n(\n" + macroBody + ")\n"
+				if variant == 0 {
+					b.WriteString(def)
+				}
+				for q := 0; q < k; q++ {
+					a.WriteString(fmt.Sprintf("URL /p%d/{id}\n%s", q, run))
+					b.WriteString(fmt.Sprintf("URL /p%d/{id}\n  PASTE @withPath\n", q))
+					if variant == 2 {
+						a.WriteString(fmt.Sprintf("TYPE @sep%d any\n", q))
+						b.WriteString(fmt.Sprintf("TYPE @sep%d any\n", q))
+					}
+				}
+				if variant != 0 {
+					b.WriteString(def)
+				}
+				id := fmt.Sprintf("multipath-%d-%d", k, variant)
+				maxMuLock.Lock()
+				pairs[id] = &pair{files: map[string][]byte{"root.jst": []byte(b.String())}, layout: map[string]string{"hand-made": "macro with method+Path pasted under " + fmt.Sprint(k) + " URLs"}}
+				maxMuLock.Unlock()
+				j1 := singleJob("plain/"+id, []byte(a.String()), false)
+				j1.Ops, j1.WantPhases = []string{"json"}, true
+				j2 := singleJob("macro/"+id, []byte(b.String()), false)
+				j2.Ops, j2.WantPhases = []string{"json"}, true
+				emit(j1)
+				emit(j2)
+			}
+		}
 		// part B: graphs
 		emitGraph := func(id string, n int, edges [][]int) {
 			anyCycle := false
